@@ -83,3 +83,15 @@ Fixpoint wrs (cur : option path) (next : Z) (ops : list op) : option (option pat
 Definition is_create (o : op) : bool := match o with OCreate _ => true | _ => false end.
 Definition cur_discont (c : cfg) (m : mux) : bool := fi_discont (get_frag c m (m_nfrags m)).
 
+
+(* ---- the record playlist ---- *)
+Definition seg_key (sg : seg) : Z * Z := (s_now sg, s_id sg).
+(* segments created since the directory was last removed: (clock, id) of every Create, in order *)
+Definition created_step (acc : list (Z * Z)) (o : op) : list (Z * Z) :=
+  match o with
+  | ORemoveAll _ => []
+  | OCreate (PTs now id) => (acc ++ [(now, id)])%list
+  | _ => acc
+  end.
+Definition created_from (acc : list (Z * Z)) (ops : list op) : list (Z * Z) := fold_left created_step ops acc.
+
